@@ -25,6 +25,14 @@ NODE_OPS = ("remove", "move_to_front", "move_to_back")
 
 def check_list(ctx, l, model, after):
     n = len(model)
+    # len() is asked first, before anything walks the list: a size that a complete traversal re-synchronises (round 17) is only
+    # wrong between the operation and the next traversal; it is asked again after the traversals below
+    try:
+        ln0 = len(l)
+    except Exception:  # noqa - reported by the second len() below
+        ln0 = n
+    ctx.need(ln0 == n, "DoublyLinkedList/%s/len-wrong" % after,
+             lambda: "len()=%d right after %s, before any traversal, but the list holds %d elements" % (ln0, after, n))
     nodes = list(itertools.islice(l.iter_nodes(), n + 2))
     ok = len(nodes) == n and all(a is b for a, b in zip(nodes, model))
     ctx.need(ok, "DoublyLinkedList/%s/traversal-differs" % after,
